@@ -27,11 +27,29 @@
 (*                   that violates the property; HistoryTrace uses the     *)
 (*                   same operators to explain a deviation of the code.    *)
 (*                                                                         *)
+(* Model = "failsticky" and "leak" are two more implementation-shaped      *)
+(*                   variants: the parser flag survives a parse that FAILS;*)
+(*                   the translation tables of an engine compiled earlier  *)
+(*                   leak into a later compilation for another engine.     *)
+(*                   TLC must find a violating history for each of them in *)
+(*                   the windows the harness replays - that is how the     *)
+(*                   harness knows these history shapes are enumerated.    *)
+(*                                                                         *)
+(* Steps may FAIL: every program has a stage (HistoryDef!Stages) at which  *)
+(* its compilation ends; Compile of a failing program is the action        *)
+(* DoFail: it emits the digest of the diagnostic (still F[prog]) and       *)
+(* leaves in the process state what was set before the failure point -     *)
+(* which, like everything else in that state, must not matter afterwards.  *)
+(*                                                                         *)
 (* Windows ($C13_WINDOWS, ndjson): the histories range over               *)
-(*   [progs, seeds, modes, maxlen, incant, sensitive]                      *)
+(*   [progs, seeds, modes, maxlen, incant, sensitive, victims, attrs]      *)
 (* a set of corpus indices, hash seeds, modes, the bound on the number of  *)
-(* Compile actions, and which programs contain the incantation / depend    *)
-(* on the parser flag.  The harness chooses windows that cover the corpus. *)
+(* Compile actions, which programs contain the incantation / depend on the *)
+(* parser flag / call built-ins that differ between dialects, and          *)
+(* attrs = Seq([n, stage, eng]) per program.  The history alphabet is      *)
+(* therefore (engine, program, outcome).  The harness chooses windows that *)
+(* cover the corpus, all ordered pairs of engines and (thorough) all       *)
+(* ordered triples.                                                        *)
 (***************************************************************************)
 EXTENDS HistoryDef, TLC, Json, IOUtils, TLCExt
 
@@ -53,6 +71,9 @@ Progs == HRange(W.progs)
 Seeds == HRange(W.seeds)
 WModes == HRange(W.modes)
 Inc(p) == p \in HRange(W.incant)
+Attr(p) == CHOOSE a \in HRange(W.attrs) : a.n = p
+Stage(p) == Attr(p).stage
+Eng(p) == Attr(p).eng
 
 F(p) == <<"F", p>>
 G(p) == <<"G", p>>
@@ -60,8 +81,13 @@ None == <<"none">>
 NoOut == [prog |-> 0, digest |-> None, first |-> None]
 
 Emit(p, m) ==
-  IF Model = "asbuilt" /\ UnderFun(ps, p, m, Inc(p)) /\ ~Inc(p)
+  IF /\ Model \in {"asbuilt", "failsticky"}
+     /\ UnderFun(ps, p, m, Inc(p)) /\ ~Inc(p)
      /\ p \in HRange(W.sensitive)
+  THEN G(p)
+  ELSE IF /\ Model = "leak"
+          /\ p \in HRange(W.victims)
+          /\ OtherEngineBefore(ps, Eng(p))
   THEN G(p) ELSE F(p)
 
 NCompiles == Cardinality({k \in 1..Len(hist) : hist[k].a = "compile"})
@@ -89,15 +115,16 @@ Compile(p, m) ==
          first == IF p \in DOMAIN seen THEN seen[p] ELSE None
      IN /\ out' = [prog |-> p, digest |-> d, first |-> first]
         /\ seen' = IF first = None THEN (p :> d) @@ seen ELSE seen
-  /\ ps' = AfterCompile(ps, p, m, Inc(p))
+  /\ ps' = AfterCompile(Model, ps, p, m, Inc(p), Stage(p), Eng(p))
   /\ hist' = Append(hist, [a |-> "compile", n |-> p, mode |-> m])
   /\ PrintT(<<"H", ToJson([w |-> win, h |-> hist'])>>)
   /\ UNCHANGED win
 
 DoNewProcess == \E s \in Seeds : NewProcess(s)
-DoCompile == \E p \in Progs, m \in WModes : Compile(p, m)
+DoCompile == \E p \in Progs, m \in WModes : Stage(p) = "ok" /\ Compile(p, m)
+DoFail == \E p \in Progs, m \in WModes : Stage(p) # "ok" /\ Compile(p, m)
 
-Next == DoNewProcess \/ DoCompile
+Next == DoNewProcess \/ DoCompile \/ DoFail
 
 Spec == Init /\ [][Next]_vars
 
